@@ -1,16 +1,23 @@
-"""C37 - memberlist member table. Spec: Members.tla; binding B: the real membersPool is driven
-(every operation sequence of a given length over a reduced alphabet + seeded random sequences)
-and the recorded call/observation events are validated by MembersTrace.tla."""
+"""C37 - memberlist member table. Spec: Members.tla (sequential table + the table used by several
+goroutines: call / internal linearization step / return), MembersPool.tla (the two-table update
+protocol of the repository against that layer; enumerates the schedules to force).
+Binding B: the real membersPool is driven
+  - sequentially (every operation sequence of a given length over a reduced alphabet + seeded
+    random sequences), every reply compared by MembersTrace.tla,
+  - from 2-4 goroutines at once on a fresh table per history: schedules enumerated by TLC from
+    MembersPool.tla (Discipline "free") are forced through the node address objects the harness
+    hands to the table, and seeded random histories run freely with delays at the same points;
+    MembersTrace.tla searches a linearization of every recorded history, whose last event is the
+    observation of every read after all goroutines returned."""
+import concurrent.futures
+import copy
+import json
 import os
+import re
 from vlib import core
 
-KEYS = {
-    "Get-found": "Get-found",
-    "Get-node": "Get-node",
-    "MembersLen": None, "MembersLenOthers-len": None, "MembersLenOthers-others": None, "MembersLenOthers-found": None,
-}
 
-
+# ------------------------------------------------------------------------------------------ sequential part
 def classify(cls, line, events):
     """name the defect class from the history that precedes the mismatching observation"""
     if cls in ("MembersLen", "MembersLenOthers-len", "MembersLenOthers-others", "MembersLenOthers-found"):
@@ -46,44 +53,365 @@ def classify(cls, line, events):
     return cls
 
 
+def sequential(c, k, args):
+    """record one sequential file and validate it; returns what the main thread turns into cases / verdicts"""
+    t = os.path.join(c.work, "trace%d.ndjson" % k)
+    c.vh(["C37", "record"] + args + ["--out", t])
+    events = core.read_ndjson(t)
+    ok, res, hw = c.tlc_validate_trace("MembersTrace", "MembersTrace.cfg", t, timeout=1500)
+    return events, ok, res, hw
+
+
+def judge_sequential(ctx, events, ok, res, hw):
+    if not ok:
+        # structurally unexplained event: report the line
+        ctx.violation("trace-rejected", "event %s not explained by Members.tla: %s" % (hw, events[hw - 1] if hw else "?"),
+                      {"line": hw, "event": events[hw - 1] if hw else None, "tlc_tail": res.out[-1500:]})
+    seqs = []
+    cur = None
+    for e in events:
+        if e["a"] == "Reset":
+            cur = []
+            seqs.append(cur)
+        elif e["a"] != "Obs":
+            cur.append([e["a"], e.get("addr"), e.get("node")])
+    for sq in seqs:
+        ctx.case(sq, nontrivial=any(o[0] == "Join" for o in sq), sample=sq)
+    ctx.traces += len(seqs)
+    seen = set()
+    for (cls, line, rest) in res.mismatches():
+        key = classify(cls, line, events)
+        if (key, line) in seen:
+            continue
+        seen.add((key, line))
+        j = line - 1
+        while j >= 0 and events[j]["a"] != "Reset":
+            j -= 1
+        hist = [e for e in events[j:line] if e["a"] != "Obs"]
+        ctx.violation(key, "%s: got/want %s after %s" % (cls, rest, [(e["a"], e.get("addr"), e.get("node")) for e in hist][-6:]),
+                      {"class": cls, "history": hist, "observation": events[line - 1]})
+    return len(seqs)
+
+
+# ------------------------------------------------------------------------------------------ concurrent part
+def subctx(ctx, k):
+    """a view of ctx for one job that goes on at the same time as others: own work directory and counters"""
+    c = copy.copy(ctx)
+    c.work = os.path.join(ctx.work, "p%s" % k)
+    os.makedirs(c.work)
+    c.states = c.transitions = 0
+    c.tlc_cmds = []
+    c._ntlc = 0
+    return c
+
+
+def side_by_side(ctx, jobs, workers):
+    """jobs: [(label, f, args)]; f(subctx, *args). Results in order; a MachineryError of a job is raised."""
+    import time
+    ctx._nside = getattr(ctx, "_nside", 0) + 1
+    subs = [subctx(ctx, "%d_%s" % (ctx._nside, lb)) for (lb, _, _) in jobs]
+    took = ctx.extra.setdefault("job_s", {})
+
+    def timed(lb, f, c, args):
+        t = time.time()
+        try:
+            return f(c, *args)
+        finally:
+            took[lb] = round(time.time() - t, 1)
+    with concurrent.futures.ThreadPoolExecutor(max_workers=workers) as ex:
+        futs = [ex.submit(timed, lb, f, c, args) for (lb, f, args), c in zip(jobs, subs)]
+        done = [f.result() for f in futs]
+    for c in subs:
+        ctx.states += c.states
+        ctx.transitions += c.transitions
+        ctx.tlc_cmds += c.tlc_cmds
+    return done
+
+
+SCHED = re.compile(r'^"SCHED (.*) ; (.*) ;((?: \d+)*)"$', re.M)
+FIELD = re.compile(r'(\w+) \|-> "(\w+)"')
+
+
+def parse_schedules(out):
+    """SCHED lines of MembersPool.tla (Forced) -> [(init, ops, toks)]"""
+    res = []
+    for (i, o, t) in SCHED.findall(out.replace('\\"', '"')):
+        init = dict(FIELD.findall(i))
+        ops = []
+        for rec in re.findall(r"\[([^\]]*)\]", o):
+            d = dict(FIELD.findall(rec))
+            ops.append({"op": d["op"], "addr": d["addr"], "node": d["node"]})
+        res.append((init, ops, [int(x) for x in t.split()]))
+    return res
+
+
+def canonical(s, addrs=("a1", "a2"), nodes=("n1", "n2")):
+    """the smallest of the renamings of a schedule (a1<->a2, n1<->n2, goroutine numbers): the table treats
+    addresses, nodes and goroutines alike"""
+    init, ops, toks = s
+    best = None
+    for am in ({}, {addrs[0]: addrs[1], addrs[1]: addrs[0]}):
+        for nm in ({}, {nodes[0]: nodes[1], nodes[1]: nodes[0]}):
+            i2 = {am.get(a, a): nm.get(n, n) for a, n in init.items()}
+            o2 = [(o["op"], am.get(o["addr"], o["addr"]), nm.get(o["node"], o["node"])) for o in ops]
+            # renumber the goroutines by the order of their calls; equal calls: by first appearance in toks
+            first = {g: (toks.index(g + 1) if g + 1 in toks else 99) for g in range(len(o2))}
+            order = sorted(range(len(o2)), key=lambda k: (o2[k], first[k]))
+            ren = {old + 1: new + 1 for new, old in enumerate(order)}
+            c = (tuple(sorted(i2.items())), tuple(o2[k] for k in order), tuple(ren[t] for t in toks))
+            if best is None or c < best:
+                best = c
+    return best
+
+
+def schedules(c, cfg, addrs):
+    r = c.tlc("MembersPool", cfg, timeout=3000, workers=4)
+    raw = parse_schedules(r.out)
+    if len(raw) < 100:
+        raise core.MachineryError("MembersPool/%s printed %d schedules: %s" % (cfg, len(raw), r.out[-1500:]))
+    canon = sorted(set(canonical(s, addrs=addrs) for s in raw))
+    return len(raw), canon
+
+
+def model(c, module, cfg):
+    r = c.tlc(module, cfg, timeout=3000, workers=4)
+    return r.distinct
+
+
+def candidate(c, cfg, inv):
+    r = c.tlc("MembersPool", cfg, allow_violation=True, timeout=900, count=False, workers=2)
+    if r.violated != inv:
+        raise core.MachineryError("%s is not violated by the candidate discipline of %s (violated: %s): the model lost its "
+                                  "sensitivity\n%s" % (inv, cfg, r.violated, r.out[-2000:]))
+    return inv + " violated (as it must be)"
+
+
+def split_histories(events):
+    hs, cur = [], None
+    for e in events:
+        if e["a"] == "HReset":
+            cur = [e]
+            hs.append(cur)
+        elif e["a"] == "End":
+            cur = None
+        elif cur is not None:
+            cur.append(e)
+    return hs
+
+
+def validate_chunk(c, hs, cfg):
+    """one TLC search over a chunk of histories -> [(history, first unexplained event)] of those without a linearization"""
+    path = os.path.join(c.work, "chunk.ndjson")
+    rows = [e for h in hs for e in h] + [{"a": "End"}]
+    core.write_ndjson(path, rows)
+    ok, res, hw = c.tlc_validate_trace("MembersTrace", cfg, path, timeout=3000)
+    seen = re.findall(r'<<"SEEN", (\d+)>>', res.out)
+    m = re.findall(r'<<\s*"NOTLIN",\s*\{([^}]*)\}\s*>>', res.out)
+    if not ok or not m or not seen or int(seen[-1]) != len(hs) or hw != len(rows) + 1:
+        raise core.MachineryError("MembersTrace/%s did not go through the %d histories (ok=%s hw=%s of %d seen=%s): %s" % (
+            cfg, len(hs), ok, hw, len(rows), seen, res.out[-3000:]))
+    notlin = set(int(x) for x in re.sub(r"\s", "", m[-1]).split(",") if x)
+    hwt = {int(i): int(l) for (i, l) in re.findall(r'<<\s*"HWT",\s*(\d+),\s*(\d+)\s*>>', res.out)}
+    out = []
+    for h in hs:
+        i = h[0]["i"]
+        if i in notlin:
+            if i not in hwt or not (1 <= hwt[i] <= len(rows)):
+                raise core.MachineryError("MembersTrace/%s printed no HWT line for history %d: %s" % (cfg, i, res.out[-1500:]))
+            out.append((h, rows[hwt[i] - 1]))
+    return out
+
+
+def validate(ctx, parts, cfg="MembersTrace_conc.cfg"):
+    """parts: [(label, histories, chunks)] -> {label: [(history, first unexplained event)]}; all chunks side by side"""
+    jobs, owner = [], []
+    for (label, hs, chunks) in parts:
+        n = max(1, min(chunks, len(hs) // 300))
+        size = (len(hs) + n - 1) // n
+        for k in range(n):
+            jobs.append(("%s%d" % (label, k), validate_chunk, (hs[k * size:(k + 1) * size], cfg)))
+            owner.append(label)
+    out = {label: [] for (label, _, _) in parts}
+    for label, part in zip(owner, side_by_side(ctx, jobs, workers=min(4, len(jobs)))):
+        out[label] += part
+    return out
+
+
+def overlaps(h, addr):
+    """which kinds of joins / leaves of the address were in progress at the same time"""
+    open_, kinds = {}, set()
+    for e in h:
+        if e["a"] == "Call":
+            if e["op"] in ("Join", "Leave") and e["addr"] == addr:
+                for o in open_.values():
+                    kinds.add("||".join(sorted([o.lower(), e["op"].lower()], reverse=True)))
+                open_[e["g"]] = e["op"]
+        elif e["a"] == "Ret":
+            open_.pop(e["g"], None)
+    return sorted(kinds)
+
+
+def final_class(fin):
+    """what the observation after all calls returned shows, by itself: (class, address)"""
+    for a in sorted(fin["exists"]):
+        listed = [n for n in sorted(fin["others"]) if fin["others"][n][a][2] == 1]
+        if fin["exists"][a] != fin["getfound"][a]:
+            return "Exists!=Get-found", a
+        if fin["exists"][a] and fin["getnode"][a] not in listed:
+            return "present-but-not-in-the-list-of-its-node", a
+        if not fin["exists"][a] and listed:
+            return "absent-but-in-a-node-list", a
+        if fin["exists"][a] and len(listed) > 1:
+            return "in-the-lists-of-two-nodes", a
+    for n in sorted(fin["mlen"]):
+        if fin["mlen"][n] != sum(1 for a in fin["exists"] if fin["others"][n][a][2] == 1):
+            return "node-list-duplicate", None
+    if fin["len"] != sum(1 for a in fin["exists"] if fin["exists"][a]) or len(fin["trav"]) != fin["len"]:
+        return "Len/Traverse!=present-members", None
+    return "no-order-of-the-calls-gives-this-table", None
+
+
+def judge_concurrent(ctx, fam, notlin):
+    for (h, ev) in notlin:
+        calls = [e for e in h if e["a"] == "Call"]
+        if ev["a"] == "Final":
+            cls, addr = final_class(ev)
+            if addr is None:
+                touched = [e["addr"] for e in calls if e["op"] in ("Join", "Leave") and e["g"] != 0]
+                addr = touched[0] if touched else None
+            what = "after-all-returned:" + cls
+        elif ev["a"] == "Ret":
+            c = {"op": "?", "addr": None}
+            for e in h:                                     # the call this Ret belongs to: the last Call of g before it
+                if e is ev:
+                    break
+                if e["a"] == "Call" and e["g"] == ev["g"]:
+                    c = e
+            addr = c["addr"] if c.get("addr") not in (None, "none") else None
+            what = "answer-of-%s" % c["op"]
+        else:
+            addr, what = None, "event-" + ev["a"]
+        ov = overlaps(h, addr) if addr else []
+        shape = ov[0] if len(ov) == 1 else ("several-overlapping-joins/leaves-of-the-address" if ov
+                                            else "no-overlapping-join/leave-of-the-address")
+        key = "not-linearizable(%s;%s)" % (shape, what)
+        ctx.violation(key, "history %d (%s): no order of the calls explains %s%s; overlapping on it: %s; calls in the order they "
+                      "started: %s" % (h[0]["i"], fam, what, " of " + addr if addr else "", ",".join(ov) or "-",
+                                       " ".join(show(e) for e in calls[:10]) + (" ..." if len(calls) > 10 else "")),
+                      {"family": fam, "history": h, "first_unexplained": ev})
+
+
+def show(e):
+    arg = ",".join(x for x in (e["addr"], e["node"]) if x != "none")
+    r = e.get("r") or {}
+    ans = {"Join": "b", "Leave": "b", "Exists": "b", "Len": "l", "MembersLen": "l"}.get(e["op"])
+    val = r.get(ans) if ans else ([r.get("b"), r.get("n")] if e["op"] == "Get" else [r.get("l"), r.get("o"), r.get("b")])
+    return "g%d:%s(%s)=%s" % (e["g"], e["op"], arg, json.dumps(val, separators=(",", ":")))
+
+
+def free_family(c, num, strict):
+    """seeded random histories of 2-4 goroutines with delays at the boundaries, and the search for their linearizations"""
+    t = os.path.join(c.work, "free.ndjson")
+    p = c.vh(["C37", "free", "--num", num, "--base", 200000, "--out", t], timeout=1800)
+    hs = split_histories(core.read_ndjson(t))
+    if len(hs) != num:
+        raise core.MachineryError("%d of %d free-running histories were recorded" % (len(hs), num))
+    nl = validate(c, [("vr", hs, max(1, num // 1500))])["vr"]
+    more = validate(c, [("vrs", hs, max(1, num // 1500))], cfg="MembersTrace_conc_strict.cfg")["vrs"] if strict else []
+    return hs, json.loads(p.stdout.strip().splitlines()[-1]), nl, more
+
+
+def forced_family(c, cfg, addrs, base, sample, strict, planned):
+    """the schedules of MembersPool.tla (Discipline "free"), up to renaming (a seeded sample of them if there are more than
+    `sample`), forced on fresh tables, and the search for the linearizations of what was recorded"""
+    nraw, canon = schedules(c, cfg, addrs)
+    scheds = canon
+    if sample and len(canon) > sample:
+        import random
+        scheds = sorted(random.Random(c.seed).sample(canon, sample))
+    spath = os.path.join(c.work, "schedules.ndjson")
+    core.write_ndjson(spath, [{"i": base + i, "init": dict(s[0]), "ops": [{"op": o[0], "addr": o[1], "node": o[2]} for o in s[1]],
+                               "toks": list(s[2])} for i, s in enumerate(scheds)])
+    fpath = os.path.join(c.work, "forced.ndjson")
+    p = c.vh(["C37", "forced", "--in", spath, "--out", fpath], timeout=3000)
+    stat = json.loads(p.stdout.strip().splitlines()[-1])
+    hs = split_histories(core.read_ndjson(fpath))
+    if len(hs) != len(scheds):
+        raise core.MachineryError("%d of %d schedules were run: %s" % (len(hs), len(scheds), stat))
+    if stat["as_planned"] < len(scheds) * planned:
+        # (calls on one address exclude each other: most schedules of the no-lock model degrade; calls on different addresses do not)
+        raise core.MachineryError("only %d of %d schedules went as planned (expected at least %d): the boundaries of MembersPool.tla "
+                                  "are not those of the code any more: %s" % (stat["as_planned"], len(scheds), len(scheds) * planned, stat))
+    stat.update({"enumerated": nraw, "up_to_renaming": len(canon)})
+    nl = validate(c, [("vf", hs, max(1, len(hs) // 1500))])["vf"]
+    more = validate(c, [("vfs", hs, max(1, len(hs) // 1500))], cfg="MembersTrace_conc_strict.cfg")["vfs"] if strict else []
+    return scheds, hs, stat, nl, more
+
+
 def run(ctx):
-    r = ctx.tlc("Members", "Members_mc.cfg")           # the abstract table itself: invariants, state count
+    quick = ctx.tier == "quick"
     ctx.rule = ("operation sequences on the member table (Join(addr,node)/Leave(addr)/Empty) each followed by an observation of "
-                "every read; exhaustive: all sequences of length D over 7 operations; random: seeded; non-trivial = sequence "
-                "with at least one Join; distinct by operation sequence")
-    depth = 4 if ctx.tier == "quick" else 5
-    runs = [["--mode", "exhaustive", "--depth", depth], ["--mode", "random", "--num", 300 if ctx.tier == "quick" else 3000, "--len", 14]]
-    for k, a in enumerate(runs):
-        t = os.path.join(ctx.work, "trace%d.ndjson" % k)
-        ctx.vh(["C37", "record"] + a + ["--out", t])
-        events = core.read_ndjson(t)
-        ok, res, hw = ctx.tlc_validate_trace("MembersTrace", "MembersTrace.cfg", t, timeout=1500)
-        if not ok:
-            # structurally unexplained event: report the line
-            ctx.violation("trace-rejected", "event %s not explained by Members.tla: %s" % (hw, events[hw - 1] if hw else "?"),
-                          {"line": hw, "event": events[hw - 1] if hw else None, "tlc_tail": res.out[-1500:]})
-        seqs = []
-        cur = None
-        for e in events:
-            if e["a"] == "Reset":
-                cur = []
-                seqs.append(cur)
-            elif e["a"] != "Obs":
-                cur.append([e["a"], e.get("addr"), e.get("node")])
-        for sq in seqs:
-            ctx.case(sq, nontrivial=any(o[0] == "Join" for o in sq), sample=sq)
-        ctx.traces += len(seqs)
-        seen = set()
-        for (cls, line, rest) in res.mismatches():
-            key = classify(cls, line, events)
-            if (key, line) in seen:
-                continue
-            seen.add((key, line))
-            j = line - 1
-            while j >= 0 and events[j]["a"] != "Reset":
-                j -= 1
-            hist = [e for e in events[j:line] if e["a"] != "Obs"]
-            ctx.violation(key, "%s: got/want %s after %s" % (cls, rest, [(e["a"], e.get("addr"), e.get("node")) for e in hist][-6:]),
-                          {"class": cls, "history": hist, "observation": events[line - 1]})
+                "every read; exhaustive: all sequences of length D over 7 operations; random: seeded; concurrent: one fresh table "
+                "per history, 2-4 goroutines calling Join/Leave/reads, forced schedules (TLC-enumerated) and free-running ones, "
+                "observation of every read after all returned; non-trivial = at least one Join (sequential) / one Join or Leave "
+                "by a goroutine (concurrent); distinct by operation sequence / by table content + calls + schedule")
+    depth = 4 if quick else 5
+    seqruns = [["--mode", "exhaustive", "--depth", depth], ["--mode", "random", "--num", 300 if quick else 3000, "--len", 14]]
+    # everything side by side: the models, the sequential recordings, the free-running histories, the forced schedules
+    # (2 goroutines on 2 addresses: every schedule up to renaming; thorough also 3 goroutines on one address: seeded sample)
+    jobs = [("seq_exhaustive", sequential, (0, seqruns[0])),
+            ("forced2", forced_family, ("MembersPool_sched_quick.cfg" if quick else "MembersPool_sched_thorough2.cfg",
+                                        ("a1", "a2"), 1, 0, not quick, 0.25)),
+            ("seq_random", sequential, (1, seqruns[1])),
+            ("free", free_family, (1000 if quick else 8000, not quick)),
+            ("Members_mc", model, ("Members", "Members_mc.cfg")),
+            ("Members_mc_conc", model, ("Members", "Members_mc_conc.cfg" if quick else "Members_mc_conc_thorough.cfg")),
+            ("MembersPool_mc", model, ("MembersPool", "MembersPool_mc_quick.cfg" if quick else "MembersPool_mc_thorough.cfg")),
+            ("cand_leave", candidate, ("MembersPool_cand_leave.cfg", "AtRestConsistent"))]
+    if not quick:
+        jobs.insert(0, ("forced3", forced_family, ("MembersPool_sched_thorough.cfg", ("a1", "a1"), 100001, 20000, True, 0.01)))
+        jobs.append(("cand_join", candidate, ("MembersPool_cand_join.cfg", "AtRestConsistent")))
+    done = side_by_side(ctx, jobs, workers=8 if quick else 5)
+    by = {lb: d for (lb, _, _), d in zip(jobs, done)}
+    ctx.extra["model_candidate_leave_updates_node_list_after_the_address_critical_section"] = by["cand_leave"]
+    if "cand_join" in by:
+        ctx.extra["model_candidate_join_updates_node_lists_after_the_address_critical_section"] = by["cand_join"]
+    for lb in ("seq_exhaustive", "seq_random"):
+        judge_sequential(ctx, *by[lb])
+
+    fam, weak, strict = {}, set(), []
+    for lb in ("forced2", "forced3"):
+        if lb in by:
+            scheds, hs, stat, nl, more = by[lb]
+            fam[lb] = stat
+            judge_concurrent(ctx, "forced schedule", nl)
+            for s in scheds:
+                ctx.case(["forced", s], nontrivial=True, sample=None)
+            ctx.traces += len(hs)
+            weak |= set(h[0]["i"] for (h, _) in nl)
+            strict += more
+    freehs, freestat, nl, more = by["free"]
+    fam["free_running"] = freestat
+    judge_concurrent(ctx, "free-running", nl)
+    weak |= set(h[0]["i"] for (h, _) in nl)
+    strict += more
+    for h in freehs:
+        calls = [[e["g"], e["op"], e["addr"], e["node"]] for e in h if e["a"] == "Call"]
+        ctx.case(["free", calls], nontrivial=any(c[0] != 0 and c[1] in ("Join", "Leave") for c in calls),
+                 sample={"concurrent": calls} if len(ctx.samples) < 5 else None)
+    ctx.traces += len(freehs)
+    ctx.extra["concurrent_histories"] = fam
+    if not quick:
+        # the stronger reading, reported only: also the reads of the per-node lists / of the length made WHILE other calls are
+        # in progress are answers of the sequential table at one instant
+        only = [(h, ev) for (h, ev) in strict if h[0]["i"] not in weak]
+        ctx.extra["stronger_reading_reads_during_calls_constrained"] = {
+            "histories_not_linearizable_only_under_it": len(only),
+            "samples": [" ".join(show(e) for e in h if e["a"] == "Call") for (h, _) in only[:3]]}
     ctx.exhaustive = True
-    ctx.assumptions = ["sequential use of the table (the memberlist delegate serialises join/leave events)"]
+    ctx.assumptions = ["the answers of MembersLen / MembersLenOthers / Len given WHILE other calls are in progress are not "
+                       "constrained (a re-join under another node moves the address between two lists in two steps; the length "
+                       "is a counter updated after the shard); Exists / Get, the answers of Join / Leave and everything after "
+                       "all calls returned are",
+                       "Empty() is driven sequentially only",
+                       "a schedule the table's locks forbid is not forced (it degrades into one they allow)"]
